@@ -346,6 +346,7 @@ func (e *Environment) create(name string, val Object) Object {
 }
 
 func (e *Environment) update(name string, found, val Object) Object {
+	val = CopyRegister(val) // a register is a live pointer: store the integer it holds now.
 	if vref, ok := val.(Reference); ok {
 		log.Debugf("Not setting %q to a reference %q", name, vref.Name)
 		val = Value(val)
